@@ -504,7 +504,8 @@ class ScriptedSim(mosaik_api_v3.Simulator):
         if kind == "set":
             _, dst_full, attr = act
             src_full = f"{self.sid}.e0"
-            val = f"set:{self.sid}#{k}:{attr}"
+            vs = self.beh.get("vstyle")
+            val = shape(f"set:{self.sid}#{k}:{attr}", k, vs if vs in ("dict", "list") else None)
             payload = {src_full: {dst_full: {attr: val}}}
             self.ctl.ev("async_set", self.sid, payload)
             try:
@@ -859,9 +860,10 @@ def run_case(case, keep_world=False):
                 for c in scn.get("conns", []):
                     if c["sa"] in ("po", "eo"):
                         want.setdefault(ents[c["src"]][c["se"]], set()).add(c["sa"])
-                if want:
+                for attr_ in sorted({a for v in want.values() for a in v}):
+                    es = [e for e, v in want.items() if attr_ in v]
                     ctl.trace.append(("pre_get_data", snapshot(
-                        {e.full_id: v for e, v in world.get_data({e: sorted(a) for e, a in want.items()}).items()})))
+                        {e.full_id: v for e, v in world.get_data(es, attr_).items()})))
         except Exception as e:  # noqa
             res.outcome = "build_error"
             res.exc_type = type(e).__name__
